@@ -1,13 +1,18 @@
 package chain
 
 import (
+	"os"
 	"encoding/json"
 	"time"
 )
 
 // RunScenario executes a scenario under the monitors of its property and returns the world.
 func RunScenario(sc *Scenario, spec *PropSpec) *World {
-	w, cerr := NewWorld(sc, spec.Monitors(sc)...)
+	mons := spec.Monitors(sc)
+	if os.Getenv("SIM_TRACE") != "" {
+		mons = append(mons, TraceMon{})
+	}
+	w, cerr := NewWorld(sc, mons...)
 	if cerr != nil {
 		w.Report("C07", "no-panic", cerr.Call+"@"+cerr.Site, cerr.Error()+"\n"+trimStack(cerr.Stack), sc.InitialH-1)
 		return w
